@@ -127,8 +127,18 @@ impl Property for C07 {
                 name: "built",
                 cases: tier.pick(4_000, 100_000),
                 strat: Arc::new(|| {
-                    config_any(CfgParams { max_files: 8, sizes: size_mixed(), comp: comp_fast(), sign_prob: 0.0, file_kinds: true, force_large_prob: 0.25, rich_meta: false })
-                        .prop_map(C07Case::Built)
+                    (config_any(CfgParams { max_files: 8, sizes: size_mixed(), comp: comp_fast(), sign_prob: 0.0, file_kinds: true, force_large_prob: 0.25, rich_meta: false }), any::<u16>())
+                        .prop_map(|(mut c, pseudo)| {
+                            // now and then one regular file (explicit mode) comes from a kernel pseudo
+                            // file: stat() says 0 bytes, reading returns more
+                            if pseudo % 8 == 0 {
+                                let n = c.files.len().max(1);
+                                if let Some(f) = c.files.iter_mut().skip((pseudo as usize / 8) % n).find(|f| matches!(f.mode, ModeSpec::Regular(_)) && f.symlink.is_none()) {
+                                    f.content.kind = 7;
+                                }
+                            }
+                            C07Case::Built(c)
+                        })
                         .boxed()
                 }),
             },
@@ -191,6 +201,9 @@ fn inner(case: &C07Case, o: &mut Outcome) -> Result<(), (String, String)> {
             let mut sizes = std::collections::BTreeSet::new();
             for f in &cfg.files {
                 o.label(format!("size-mod4-{}", f.content.size % 4));
+                if f.content.pseudo_source().is_some() {
+                    o.label("source-is-a-pseudo-file");
+                }
                 if f.content.size >= 65536 {
                     o.label("big-file");
                 }
